@@ -75,7 +75,21 @@ def gen(rng, tier):
             e = RT.gen_rich_logical(rng, 2)
             q["first"]["segs"] = q["first"]["segs"] + [["list", ["filter", e]]]
         tok = gen_assignment(rng, P) if i % 10 else None
-        yield {"query": q, "docs": docs, "ctx": Q.CTX, "env": tok, "seed": rng.randrange(1 << 30)}
+        seed = rng.randrange(1 << 30)
+        yield {"query": q, "docs": docs, "ctx": Q.CTX, "env": tok, "seed": seed}
+        if i % 4 == 1:
+            # another environment made of the SAME spellings with two roles swapped (a longer spelling changes owner):
+            # nothing an environment builds may be shared through what the spellings look like
+            base = dict(tok) if tok else {"root": "$", "fake": "^", "self": "@", "key": "#", "union": "|", "inter": "&", "fctx": "_", "keys": "~"}
+            if not tok:
+                base["root"] = "$$"
+                yield {"query": q, "docs": docs, "ctx": Q.CTX, "env": dict(base), "seed": seed}
+            ks = sorted(KEYS, key=lambda k: -len(base[k]))
+            a, b = ks[0], rng.choice(ks[1:])
+            swapped = dict(base)
+            swapped[a], swapped[b] = base[b], base[a]
+            if not swapped["keys"].startswith("_"):
+                yield {"query": q, "docs": docs, "ctx": Q.CTX, "env": swapped, "seed": seed}
 
 
 def text_of(case):
